@@ -86,6 +86,12 @@ WriteOK(w) ==
   /\ WellFormed(w)
   /\ \A i \in 1..(N(w) - 1) : w.idxs[i] < w.idxs[i + 1]
   /\ \A i \in 1..N(w) : w.idxs[i] \notin Dom
+\* a call whose indices come in any order (C13 and C20 speak of every sample and every write call): nothing in it exists,
+\* nothing is named twice
+WriteOKAny(w) ==
+  /\ WellFormed(w)
+  /\ \A i, j \in 1..N(w) : i # j => w.idxs[i] # w.idxs[j]
+  /\ \A i \in 1..N(w) : w.idxs[i] \notin Dom
 \* the quantifier of C12 speaks of ascending write sequences: the generators (not the actions) respect it
 AscendingHistory(w) == Dom = {} \/ w.idxs[1] > Max(Dom)
 \* a call that tries to write an index that already exists (in the channel, or earlier in the same call)
@@ -106,6 +112,14 @@ Age(flag) == readers' = [r \in DOMAIN readers |-> [readers[r] EXCEPT !.old = @ \
 \* `tok` is the hash of the tree after the call: any value (a write may change anything it likes)
 WriteBatch(w, tok) ==
   /\ WriteOK(w)
+  /\ Apply(ToSet(w.idxs), w)
+  /\ Age(TRUE)
+  /\ disk' = tok /\ resp' = "ok"
+  /\ last' = Act("WriteBatch", 0, w, NoQ, ToSet(w.idxs))
+  /\ UNCHANGED <<cfg, rf>>
+
+WriteBatchAny(w, tok) ==
+  /\ WriteOKAny(w)
   /\ Apply(ToSet(w.idxs), w)
   /\ Age(TRUE)
   /\ disk' = tok /\ resp' = "ok"
